@@ -527,6 +527,9 @@ func (t *Term) smtDef() string {
 	case "sext":
 		return fmt.Sprintf("((_ sign_extend %d) %s)", t.p1, as[0])
 	}
+	if strings.HasPrefix(t.op, "uf:") {
+		return "(uf_" + t.op[3:] + " " + strings.Join(as, " ") + ")"
+	}
 	return "(" + t.op + " " + strings.Join(as, " ") + ")"
 }
 
